@@ -100,7 +100,9 @@ func compareIPs(x, y []byte) int {
 	addrX, okX := netip.AddrFromSlice(x)
 	addrY, okY := netip.AddrFromSlice(y)
 	if !okX || !okY {
-		panic("unexpected IP address byte slice")
+		// not an IP address (e.g. an 8 or 12 byte SCION host address of a
+		// received packet): never equal to an IP address
+		return 1
 	}
 	return addrX.Unmap().Compare(addrY.Unmap())
 }
@@ -484,7 +486,12 @@ func (c *SCIONClient) measureClockOffsetSCION(ctx context.Context, mtrcs *scionC
 							c.Auth.mac,
 						)
 						if err != nil {
-							panic(err)
+							if numRetries != maxNumRetries && deadlineIsSet && timebase.Now().Before(deadline) {
+								c.Log.LogAttrs(ctx, slog.LevelInfo, "failed to authenticate packet", slog.Any("error", err))
+								numRetries++
+								continue
+							}
+							return time.Time{}, 0, err
 						}
 						authenticated = subtle.ConstantTimeCompare(scion.PacketAuthOptMAC(authOpt), c.Auth.mac) != 0
 						if !authenticated {
